@@ -19,6 +19,7 @@ class IBM:
         self.timer = modules["time"]
         self.kill = _sched(kwargs.get("kill"))
         self.kill_tag = _sched(kwargs.get("kill_tag"))  # by release-row tag `rid`
+        self.deactivate_time = dict(kwargs.get("deactivate_time") or {})
         self.kill_time = dict(kwargs.get("kill_time") or {})  # keys = model time (ISO string): independent of where a (warm-started) run begins to count steps
         self.deactivate = _sched(kwargs.get("deactivate"))
         self.deactivate_tag = _sched(kwargs.get("deactivate_tag"))
@@ -65,6 +66,8 @@ class IBM:
             st["alive"] = st["alive"] & ~self._sel(self.kill_time[str(self.timer.time)])
         if step in self.kill_tag:
             st["alive"] = st["alive"] & ~np.isin(st["rid"], np.asarray(self.kill_tag[step], dtype=int))
+        if str(self.timer.time) in self.deactivate_time:
+            st["active"] = st["active"] & ~self._sel(self.deactivate_time[str(self.timer.time)])
         if step in self.deactivate:
             st["active"] = st["active"] & ~self._sel(self.deactivate[step])
         if step in self.deactivate_tag:
